@@ -18,6 +18,8 @@ EXTENDS ManifestContract, TraceIO
 (* event the contract does not allow: it prints <<"REJECTED_LINE", l>>,    *)
 (* skips the rest of that execution and goes on with the next reset.       *)
 (* checks/C10.py classifies every printed line (known finding / VIOLATION).*)
+(* An allowed event that fails a DRIFT-ONLY clause of the contract is       *)
+(* printed as <<"DRIFT_LINE", l>> and the execution goes on.                *)
 VARIABLE skipping
 tvars == <<cvars, l, skipping>>
 
@@ -36,7 +38,13 @@ Allowed(e) ==
     CASE e.ev = "load" -> LoadOK(e.kind, e.paths)
       [] e.ev = "file" -> FileOK(e.path, e.kind, e.obs)
       [] e.ev = "out"  -> OutOK(e.src, e.rel, e.slash, e.kind, e.out)
-      [] e.ev = "pdh"  -> PdhOK(e.got, e.want, e.dkind, e.blocks)
+      [] e.ev = "pdh"  -> PdhOK(e.got, e.want)
+
+\* clauses that go beyond the statement: failing one of them is printed as <<"DRIFT_LINE", l>> and changes nothing
+DriftOK(e) ==
+    CASE e.ev = "out" -> OutHintsOK(e.out)
+      [] e.ev = "pdh" -> DigestsOK(e.dkind, e.blocks)
+      [] OTHER -> TRUE
 
 Known == {"load", "file", "out", "pdh"}
 
@@ -46,6 +54,7 @@ TraceStep == /\ l <= Len(Trace)
              /\ l' = l + 1
              /\ IF Allowed(Trace[l])
                 THEN /\ skipping' = FALSE
+                     /\ DriftOK(Trace[l]) \/ PrintT(<<"DRIFT_LINE", l>>)
                      /\ IF Trace[l].ev = "load" THEN Load(Trace[l].kind, Trace[l].paths) ELSE UNCHANGED cvars
                 ELSE /\ PrintT(<<"REJECTED_LINE", l>>)
                      /\ skipping' = TRUE
